@@ -78,6 +78,7 @@ def run(rep: core.Report):
     _r17m(rep)
     _r17n(rep)
     _r17p(rep)
+    _r17r(rep)
     from rules import shared_trunc
 
     shared_trunc.run_int_calls(rep, "R17q", sorted(os.path.relpath(f_, core.REPO) for f_ in _glob17.glob(str(core.REPO / "phonopy/interface/*.py"))))
@@ -226,6 +227,55 @@ def _fold(node, u):
         raise AnalysisError(f"unit value '{core.src(n)}' is not a constant expression")
 
     return ev(node)
+
+
+def _r17r(rep):
+    """The force-constants unit conversion, evaluated over every (unit, calculator) pair."""
+    from engine import pyeval
+
+    rep.rule("R17r", "get_force_constant_conversion_factor evaluated over its whole domain (every unit of its table x every calculator of get_default_physical_units, constants folded from units.py): the factor is (1 unit in eV/angstrom^2) / (1 default force-constants unit of that calculator in eV/angstrom^2), both from the dimensional model of the unit strings -- so that force constants stored in one unit give the same frequencies under every calculator's frequency factor", 12)
+    u = symalg.fold_constants("phonopy/units.py")
+    tree = core.parse(CALC)
+    fn = core.find_def(CALC, "get_force_constant_conversion_factor")
+    fnu = core.find_def(CALC, "get_default_physical_units")
+    modes = set()
+    for c in ast.walk(fnu):
+        if isinstance(c, ast.Compare) and core.src(c.left) == "interface_mode":
+            for x in ast.walk(c.comparators[0]):
+                if isinstance(x, ast.Constant) and isinstance(x.value, str):
+                    modes.add(x.value)
+    tab = [st for st in ast.walk(fn) if isinstance(st, ast.Assign) and isinstance(st.value, ast.Dict) and st.value.keys and all(isinstance(k, ast.Constant) and isinstance(k.value, str) and "/" in k.value for k in st.value.keys)]
+    units = sorted({k.value for t in tab for k in t.value.keys})
+    if len(modes) < 12 or len(units) < 5:
+        raise AnalysisError(f"R17r: {len(modes)} calculators and {len(units)} units found (16 and 6 on the confirmed tree)")
+    E = pyeval.Evaluator(tree, consts=dict(u), where="get_force_constant_conversion_factor")
+    n = 0
+    for mode in sorted(modes):
+        try:
+            du = E.call(fnu, [mode])
+        except (pyeval.Unknown, pyeval.Raised) as ex:
+            raise AnalysisError(f"R17r: get_default_physical_units('{mode}') cannot be evaluated: {ex}")
+        dfc = du.get("force_constants_unit") if isinstance(du, dict) else None
+        if not isinstance(dfc, str):
+            continue
+        e0, a0, b0 = _parse_fc_unit(dfc, u)
+        bad = []
+        for unit in units:
+            e1, a1, b1 = _parse_fc_unit(unit, u)
+            want = (e1 / (a1 * b1)) / (e0 / (a0 * b0))
+            try:
+                got = E.call(fn, [unit, mode])
+            except pyeval.Raised as ex:
+                got = f"raises {ex}"
+            except pyeval.Unknown as ex:
+                raise AnalysisError(f"R17r: get_force_constant_conversion_factor('{unit}', '{mode}') cannot be evaluated: {ex}")
+            n += 1
+            if not (isinstance(got, (int, float)) and abs(got - want) <= 1e-9 * abs(want)):
+                bad.append((unit, got, want))
+        rep.instance("R17r", CALC, "get_force_constant_conversion_factor", f"calculator '{mode}' (default unit {dfc}): {len(units)} units", not bad,
+                     (f"for calculator '{mode}' force constants given in '{bad[0][0]}' are converted by {bad[0][1]!r}, but 1 {bad[0][0]} is {bad[0][2]!r} {dfc}" if bad else "") + f" ({len(bad)} of {len(units)} units wrong): force constants read from a file in another unit are scaled wrongly and every frequency with them", line=fn.lineno)
+    if n < 60:
+        raise AnalysisError(f"R17r: only {n} (unit, calculator) pairs evaluated")
 
 
 def _parse_fc_unit(s, u):
@@ -1135,6 +1185,8 @@ def selftest():
     V = []
     b = lambda name, file, old, new, rule, expect="", **kw: V.append(dict(name=name, kind="break", file=file, old=old, new=new, rule=rule, expect=expect, **kw))
     n = lambda name, file, old, new, **kw: V.append(dict(name=name, kind="neutral", file=file, old=old, new=new, **kw))
+    b("conversion divides by the table entry of the file's unit", CALC, "        factor = factor_to_eVperA2[_unit] / factor_to_eVperA2[default_unit]", "        factor = factor_to_eVperA2[default_unit] / factor_to_eVperA2[_unit]", "R17r", "get_force_constant_conversion_factor")
+    n("conversion written as a product with the reciprocal", CALC, "        factor = factor_to_eVperA2[_unit] / factor_to_eVperA2[default_unit]", "        factor = factor_to_eVperA2[_unit] * (1.0 / factor_to_eVperA2[default_unit])")
     b("SIESTA reader writes parsed tags into the class-level dictionary", "phonopy/interface/siesta.py", "        self._tags = self._tags.copy()\n", "", "R17o", "SiestaIn")
     b("DFTB+ type indices from the sorted unique symbols", "phonopy/interface/dftbp.py", "    atom_numbers = []\n    for ss in expaned_symbols:\n        atom_numbers.append(symbols.index(ss) + 1)\n", "    _, atom_numbers = np.unique(expaned_symbols, return_inverse=True)\n    atom_numbers = atom_numbers + 1\n", "R17n", "write_dftbp")
     b("ABINIT typat looked up in the sorted numbers", "phonopy/interface/abinit.py", "        typat.append(znucl.index(n) + 1)", "        typat.append(sorted(znucl).index(n) + 1)", "R17n", "get_abinit_structure")
